@@ -38,7 +38,7 @@ PROPERTY = "C09"
 LEVEL = "exploration"
 PARALLEL = True
 RULE = ("one gene per record on real DNA (sense codons only, optional terminal stop codon, TTA codons sown): "
-        "1-4 exons, either strand, introns 1-6 bp, exon borders on any codon phase, exons down to 1 bp, "
+        "1-4 exons, either strand, introns 0-6 bp (0 = adjacent parts), exon borders on any codon phase, exons down to 1 bp, "
         "codon_start 1-3 (read through Record.from_biopython), 0-2 trailing bases, linear or circular record, "
         "origin-spanning with the origin inside an exon, inside an intron or on an exon border; protein ranges: "
         "all [s,e) for genes <= 15 codons, else 40 random ranges plus every range that starts or ends on an exon "
@@ -234,8 +234,12 @@ def drive_frameshift(ctx, gene: Gene, case):
         ctx.violate("frameshift-location", facts, case)
         return False
     # writing the gene out again must undo the shift exactly
-    out = gene.cds.to_biopython()[0]
     raw = make_location([tuple(p) for p in case["parts"]], case["strand"])
+    try:
+        out = gene.cds.to_biopython()[0]
+    except Exception as err:  # pylint: disable=broad-except
+        ctx.violate("frameshift-undo", dict(facts, exception=type(err).__name__, message=str(err)[:160]), case)
+        return False
     if list(out.location) != list(raw) or (case["codon_start"] != 1
                                            and out.qualifiers.get("codon_start") != [str(case["codon_start"])]):
         ctx.violate("frameshift-undo", dict(facts, written=str(out.location), read=str(raw)), case)
@@ -398,6 +402,10 @@ def drive_tta(ctx, gene: Gene, case):
     try:
         record.add_subregion(SubRegion(FeatureLocation(0, len(record.seq), 1), tool="c09"))
         record.create_regions()
+        if gene.cds not in record.get_cds_features_within_regions():
+            # region<->CDS linking of origin-spanning genes is C08's subject; marker placement is ours
+            ctx.count("tta:gene-linked-to-region-by-harness")
+            record.get_regions()[0].add_cds(gene.cds)
         assert gene.cds in record.get_cds_features_within_regions(), "harness: gene not inside the region"
     except Exception as err:  # pylint: disable=broad-except
         ctx.count("skipped:tta-no-region")
